@@ -62,6 +62,13 @@ FIXED = [
      ]], "patterns": ["*.ts", "src/lib/skip.py"], "sources": {"option": ["*.ts"], "config": [], "gitignore": ["src/lib/skip.py"]}},
     {"tree": ["D", "root", [["D", "a", [["F", "x.py", LONG], ["D", "b", [["F", "y.py", LONG]]]]], ["D", "lib", [["D", "a", [["F", "z.py", LONG]]]]]]],
      "patterns": ["a/*", "lib/"], "sources": {"option": [], "config": ["a/*", "lib/"], "gitignore": []}},
+    # anchored patterns and same-named directories deeper in the tree (seeded changes C12-1, C11-4: pruning
+    # directories by their bare name): `/out` and `src/gen` exclude only the entries directly at that path
+    {"tree": ["D", "root", [["D", "out", [["F", "a.py", LONG]]], ["F", "c.py", LONG],
+                            ["D", "src", [["D", "out", [["F", "b.py", LONG], ["D", "deep", [["F", "b2.js", LONGJS]]]]],
+                                          ["D", "gen", [["F", "g.py", LONG]]],
+                                          ["D", "pkg", [["D", "gen", [["F", "h.py", LONG]]], ["D", "src", [["D", "gen", [["F", "i.py", LONG]]]]]]]]]]],
+     "patterns": ["/out", "src/gen"], "sources": {"option": ["/out"], "config": [], "gitignore": ["src/gen"]}},
 ]
 
 
@@ -308,7 +315,7 @@ def correspond(ctx):
                       "working directory below the root (model only)": stats["kinds"]["cwd_below_root"]}
     return {
         "evaluations": stats["runs"], "distinct_nontrivial": len(nontrivial),
-        "rule": "%d random trees + %d fixed (generator of C11; functions of 3..75 lines incl. 30/31/60/61; Latin-1, malformed and empty files) x patterns of the 5 gitignore classes via option/.codelimit.yml/.gitignore; per tree: check on every file by relative path (and by absolute path, model comparison only), on every directory (root `.` and all sub-directories; hidden directories for the model comparison only) relatively and absolutely, one call with 2-3 arguments (model only), and ~6 calls from a working directory below the root incl. arguments outside it (model only); non-trivial = distinct (tree, patterns, way) with at least one listed function" % (n, len(FIXED)),
+        "rule": "%d random trees + %d fixed (generator of C11; functions of 3..75 lines incl. 30/31/60/61; Latin-1, malformed and empty files) x patterns of the 6 gitignore classes via option/.codelimit.yml/.gitignore; per tree: check on every file by relative path (and by absolute path, model comparison only), on every directory (root `.` and all sub-directories; hidden directories for the model comparison only) relatively and absolutely, one call with 2-3 arguments (model only), and ~6 calls from a working directory below the root incl. arguments outside it (model only); non-trivial = distinct (tree, patterns, way) with at least one listed function" % (n, len(FIXED)),
         "samples": [], "exhaustive": False, "distribution": stats,
         "disagreements": dis[:50], "oracle_failures": fails[:50],
     }
